@@ -14,9 +14,9 @@ from ..sds_parser import SdsType
 # ------------------------------------------------------------------------------------------------------ terms
 # A term is (ctor, children...) ; leaves are (name,)
 
-LEAVES = ["int", "str", "bool", "float", "None", "Any", "LC", "OC", "Color", "T", "TB", "FwdLC", "NT", "TD", "DC"]
+LEAVES = ["int", "str", "bool", "float", "None", "Any", "LC", "OC", "Color", "T", "TB", "FwdLC", "NT", "TD", "DC", "NTS", "TPS"]
 LEAF_SRC = {"LC": "LC_@MOD@", "FwdLC": '"LC_@MOD@"'}
-LEAF_IMG = {"int": "Int", "str": "String", "bool": "Boolean", "float": "Float", "Any": "Any", "LC": "LC", "OC": "OC", "Color": "Color", "T": "T", "TB": "TB", "FwdLC": "LC", "NT": "NT", "TD": "TD", "DC": "DC"}
+LEAF_IMG = {"int": "Int", "str": "String", "bool": "Boolean", "float": "Float", "Any": "Any", "LC": "LC", "OC": "OC", "Color": "Color", "T": "T", "TB": "TB", "FwdLC": "LC", "NT": "NT", "TD": "TD", "DC": "DC", "NTS": "NTS", "TPS": "TPS"}
 
 UNARY = ["list", "List", "Sequence", "Collection", "set", "tuple1", "Optional", "orNone", "Gen", "Callable0", "CallableNone"]
 BINARY = ["dict", "Mapping", "tuple2", "Union", "bar", "Callable1"]
@@ -255,14 +255,14 @@ HEADER = (
     "import typing\n"
     "from typing import Annotated, Any, Final, Literal, Optional, TypeVar, Union\n"
     "from collections.abc import Callable, Collection, Iterable, Mapping, Sequence\n"
-    "from vpkg.support import DC, NT, OC, TD, Color, Gen\n\n"
+    "from vpkg.support import DC, NT, NTS, OC, TD, TPS, Color, Gen\n\n"
     'T = TypeVar("T")\nTB = TypeVar("TB", bound=int)\n\n\n'
     "class LC_@MOD@:\n    pass\n\n\n"
 )
 SUPPORT = (
     "from dataclasses import dataclass\nfrom enum import Enum\nfrom typing import Generic, NamedTuple, TypedDict, TypeVar\n\n_G = TypeVar('_G')\n\n\n"
     "class OC:\n    pass\n\n\nclass Color(Enum):\n    RED = 1\n\n\nclass Gen(Generic[_G]):\n    pass\n\n\n"
-    "class NT(NamedTuple):\n    x: int\n\n\nclass TD(TypedDict):\n    a: int\n\n\n@dataclass\nclass DC:\n    a: int\n"
+    "class NT(NamedTuple):\n    x: int\n\n\nclass TD(TypedDict):\n    a: int\n\n\n@dataclass\nclass DC:\n    a: int\n\n\nclass NTS(NT):\n    def extra(self) -> int:\n        return 1\n\n\nclass TPS(tuple[int, str]):\n    pass\n"
 )
 
 
@@ -292,7 +292,7 @@ def run(rep: Report, tier: str, seed: int) -> None:
     for i, (t, depth) in enumerate(enumerate_terms(tier)):
         cases.append(Case(i, render_case(i, t), (t, depth), (), label(t)))
     rep.rule = (
-        f"annotation terms over {len(LEAVES)} leaves (builtins, None, Any, local / imported / forward-referenced class, enum, type variables, NamedTuple / TypedDict / dataclass classes) + 8 Literal forms and 17 listed (+6 unlisted) constructors: depth<=1 complete; depth 2 "
+        f"annotation terms over {len(LEAVES)} leaves (builtins, None, Any, local / imported / forward-referenced class, enum, type variables, NamedTuple / TypedDict / dataclass classes, a subclass of a NamedTuple class, a subclass of tuple[int, str]) + 8 Literal forms and 17 listed (+6 unlisted) constructors: depth<=1 complete; depth 2 "
         + ("complete for unary inner terms (binary outer: one depth-1 child + one leaf, both orders)" if tier == "thorough" else "fixed slice (every constructor over every constructor)")
         + "; each term in 5 positions (parameter, constructor parameter, result, class attribute, instance attribute); distinct = distinct term"
     )
